@@ -127,7 +127,19 @@ pub fn wave_dump(bytes: Vec<u8>, full: bool) -> String {
     let mut out = String::new();
     walk(&mut c, h.items(), &mut out);
     let ts = h.timescale().map(|t| format!("{}:{:?}", t.factor, t.unit)).unwrap_or("-".to_string());
-    format!("{}|tt={}|ts={}", out, nat_list_str(&body.time_table), ts)
+    // source locators of scopes (FST): `<full name>:<declaration>/<instantiation>`, only when there are any
+    let hx = |s: &str| s.as_bytes().iter().map(|b| format!("{b:02x}")).collect::<String>();
+    let mut srcs = vec![];
+    for sc in h.iter_scopes() {
+        let d = sc.source_loc(&h);
+        let i = sc.instantiation_source_loc(&h);
+        if d.is_some() || i.is_some() {
+            let f = |l: Option<(&str, u64)>| l.map(|(p, n)| format!("{}@{}", hx(p), n)).unwrap_or("-".to_string());
+            srcs.push(format!("{}:{}/{}", hx(&sc.full_name(&h)), f(d), f(i)));
+        }
+    }
+    let src = if srcs.is_empty() { String::new() } else { format!("|src={}", srcs.join(";")) };
+    format!("{}|tt={}|ts={}{}", out, nat_list_str(&body.time_table), ts, src)
 }
 
 pub fn ghw(toks: &[&str]) -> String {
